@@ -401,6 +401,36 @@ def macros_sweep(n: int, seed: int) -> Tuple[Dict[str, Any], List[Dict[str, Any]
                              "parameterised with two calls, inside a name, nested), split over <= 2 extra files; seeded random"}}, viol
 
 
+def resolver_sweep() -> Tuple[Dict[str, Any], List[Dict[str, Any]]]:
+    """MacroArgsResolver.resolve == simultaneous substitution of the call's argument values for the formal
+    parameters, on every macro body of the enumerated space (exhaustive within the bound)"""
+    leaves = ["x", "y", "rax"]
+    depth1: List[Any] = list(leaves)
+    lists = [[a] for a in leaves] + [[a, b] for a in leaves for b in leaves]
+    dicts = [{"mov": l} for l in lists] + [{"$deref": {"main_reg": a, "constant_offset": b}} for a in leaves for b in leaves]
+    level2 = [[d] for d in dicts] + [[{"$or": [d1, d2]}] for d1 in dicts[:6] for d2 in dicts[6:12]] + \
+             [[{"$and": [d, a]}] for d in dicts[:9] for a in leaves]
+    values = ["y", "x", "rbx", {"$or": ["p", "q"]}, 7]
+    cases = []
+    for body in level2:
+        for formals in (["x"], ["x", "y"]):
+            for vals in itertools.product(values, repeat=len(formals)):
+                call = {"@m": dict(zip(formals, vals))}
+                macro = {"name": "@m", "args": list(formals), "pattern": copy.deepcopy(body)}
+                cases.append((macro, call))
+    res = replay.run_real({"kind": "resolver", "cases": cases}, timeout=1800)["results"]
+    viol = []
+    for (macro, call), r in zip(cases, res):
+        mapping = dict(call["@m"])
+        want = INL._subst_args(copy.deepcopy(macro["pattern"]), mapping)
+        if r.get("pattern") != want:
+            viol.append({"input": {"macro": macro, "call": call}, "real": r, "expected": want,
+                         "disagreement": "MacroArgsResolver.resolve is not the simultaneous substitution of the argument values for the formal parameters"})
+    return {"resolver_sweep": {"cases": len(cases), "exhaustive": True,
+                               "bound": "bodies of depth <= 3 (one item: mov/$deref/$or/$and over leaves x, y, rax), 1-2 formals, 5 argument values "
+                                        "(incl. a value spelled like the other formal, a subtree, an integer)"}}, viol[:5]
+
+
 def undefined_macro_sweep() -> Tuple[Dict[str, Any], List[Dict[str, Any]]]:
     """C19: an undefined @name in every position of the quantifier must raise"""
     defs = [{"name": "@m", "pattern": "push"}, {"name": "@z", "args": ["reg"], "pattern": [{"xor": ["reg", "reg"]}]}]
@@ -852,7 +882,7 @@ def instrumentation_identity() -> Tuple[Dict[str, Any], List[Dict[str, Any]]]:
 QUICK = {"den": 60, "modes": 25, "macros": 60, "history": 30, "parser": 300, "validaddr": 40, "cli": 1, "binary": 1}
 THOROUGH = {"den": 2500, "modes": 400, "macros": 1500, "history": 182, "parser": 20000, "validaddr": 400, "cli": 1, "binary": 1}
 DEN_PROPS = {"C01", "C02", "C03", "C04", "C05", "C06", "C07", "C11"}
-QUICK_SWEEP_PROPS = {"C13": ["macros"], "C19": ["undefined"], "C14": ["history"]}
+QUICK_SWEEP_PROPS = {"C13": ["macros", "resolver"], "C19": ["undefined"], "C14": ["history"]}
 
 
 def run(prop: str, tier: str, seed: int, force: bool = False) -> Tuple[Dict[str, Any], List[Dict[str, Any]]]:
@@ -868,7 +898,7 @@ def run(prop: str, tier: str, seed: int, force: bool = False) -> Tuple[Dict[str,
         if prop in ("C12", "C11", "C07"):
             plan.append("modes")
         if prop in ("C13",):
-            plan += ["macros", "undefined"]
+            plan += ["macros", "resolver", "undefined"]
         if prop in ("C19",):
             plan += ["undefined", "macros"]
         if prop == "C14":
@@ -900,6 +930,8 @@ def run(prop: str, tier: str, seed: int, force: bool = False) -> Tuple[Dict[str,
             c, v = macros_sweep(B["macros"], seed)
         elif s == "undefined":
             c, v = undefined_macro_sweep()
+        elif s == "resolver":
+            c, v = resolver_sweep()
         elif s == "history":
             c, v = history_sweep(B["history"], seed)
         elif s == "parser":
